@@ -1,11 +1,16 @@
 (* C17 (2/3) -- voice estimation: executable model of the OUTER layer of
    partitura/musicanalysis/voice_separation.py: estimate_voices -- ids, chord grouping by
-   (onset, duration) with the argmax_pitch representative, the array handed to VoSA, the
-   scatter of the representatives' voices through idx_equivs, rename_voices (numbering
-   by first occurrence) and the final reversal max - r + 1.
-   The contig-mapping search itself (class VoSA: ~900 lines of heuristic) is NOT modelled:
-   it is the Section variable [oracle] (not an axiom): the theorems hold for every
-   function that returns one row per representative.  Definitions only. *)
+   (onset, duration), ONE representative per chord, the array handed to VoSA, the scatter of
+   the representatives' voices through idx_equivs, rename_voices (numbering by first
+   occurrence) and the final reversal max - r + 1.
+   Two things are parameters (Section variables, not axioms):
+   * [oracle]: the contig-mapping search itself (class VoSA: ~900 lines of heuristic) is NOT
+     modelled; the theorems hold for every function that returns rows for the representatives;
+   * [rep]: WHICH note of a chord represents it (the code: argmax_pitch, the first note of
+     maximal pitch = [rep_of]); nothing the property states depends on that choice, so the
+     theorems hold for every choice of a member, and the correspondence accepts whatever
+     member the implementation hands to VoSA ([rep_obs]).
+   Definitions only. *)
 From PV Require Import Lib.Base.
 #[local] Open Scope Z_scope.
 
@@ -45,10 +50,15 @@ Fixpoint rep_from (ins : list (Z * vnote)) (best : Z) (ids : list Z) : Z :=
 Definition rep_of (ins : list (Z * vnote)) (ids : list Z) : Z :=
   match ids with [] => 0 | i :: r => rep_from ins i r end.
 
-(* idx_equivs: representative id -> ids of the chord (identity map in monophonic mode) *)
-Definition equivs_of (mono : bool) (ins : list (Z * vnote)) : list (Z * list Z) :=
+(* idx_equivs: representative id -> ids of the chord (identity map in monophonic mode);
+   [rp] picks the representative among the ids of a chord *)
+Definition equivs_with (rp : list Z -> Z) (mono : bool) (ins : list (Z * vnote)) : list (Z * list Z) :=
   if mono then map (fun x => (fst x, [fst x])) ins
-  else map (fun g => (rep_of ins (snd g), snd g)) (group_notes ins).
+  else map (fun g => (rp (snd g), snd g)) (group_notes ins).
+
+(* the code's choice: argmax_pitch *)
+Definition equivs_of (mono : bool) (ins : list (Z * vnote)) : list (Z * list Z) :=
+  equivs_with (rep_of ins) mono ins.
 
 Fixpoint zinsert (x : Z) (l : list Z) : list Z :=
   match l with [] => [x] | y :: r => if x <=? y then x :: l else y :: zinsert x r end.
@@ -91,6 +101,8 @@ Definition reverse_voices (rs : list Z) : list Z :=
   let k := zmax_list rs in map (fun r => k - r + 1) rs.
 
 Section Outer.
+  (* which member represents a chord (given the indexed notes and the chord's ids) *)
+  Variable rep : list (Z * vnote) -> list Z -> Z.
   (* rows (id, note) of the array given to VoSA |-> rows (id, voice) of VoSA(..).note_array() *)
   Variable oracle : list (Z * vnote) -> list (Z * Z).
 
@@ -98,7 +110,7 @@ Section Outer.
      return an uninitialised entry of np.empty (a note nobody wrote to) *)
   Definition scatter (mono : bool) (notes : list vnote) : option (list Z) :=
     let ins := indexed_from 0 notes in
-    let eqv := equivs_of mono ins in
+    let eqv := equivs_with (rep ins) mono ins in
     let res := oracle (vosa_input ins eqv) in
     match all_some (map (fun r => match zlookup (fst r) eqv with
                                   | Some mem => Some (mem, snd r)
@@ -114,31 +126,44 @@ Section Outer.
     end.
 End Outer.
 
-(* "the oracle is total on the representatives": its rows carry exactly the ids it was given *)
+(* "the oracle is total on the representatives": its rows carry the ids it was given, all of
+   them and no others (as sets: order and repetitions do not matter, the last write wins) *)
 Definition oracle_total_on (inp : list (Z * vnote)) (res : list (Z * Z)) : bool :=
-  list_eqb Z.eqb (zsort (map fst res)) (map fst inp).
+  forallb (fun i => mem_z i (map fst inp)) (map fst res) &&
+  forallb (fun i => mem_z i (map fst res)) (map fst inp).
 
-(* ---- checker used by the correspondence: (mono, notes, ids given to VoSA, VoSA's rows, output) *)
+(* the representative the implementation was OBSERVED to use: the member of the chord that is
+   among the ids handed to VoSA (the first such member; the chord's first note if there is none --
+   the checker then fails on the comparison of the id sets) *)
+Definition rep_obs (vin : list Z) (ins : list (Z * vnote)) (ids : list Z) : Z :=
+  match filter (fun i => mem_z i vin) ids with
+  | x :: _ => x
+  | [] => hd 0 ids
+  end.
+
+(* ---- checker used by the correspondence: (mono, notes, ids given to VoSA, VoSA's rows, output).
+   The ids handed to VoSA are one member of every chord and nothing else (every id in monophonic
+   mode) -- in any order, whichever member; VoSA answered exactly them; the output is the model's *)
 Definition voices_check (c : bool * list vnote * list Z * list (Z * Z) * list Z) : bool :=
   let '(mono, notes, vin, vres, out) := c in
   let ins := indexed_from 0 notes in
-  let inp := vosa_input ins (equivs_of mono ins) in
-  list_eqb Z.eqb (map fst inp) vin &&
+  let inp := vosa_input ins (equivs_with (rep_obs vin ins) mono ins) in
+  list_eqb Z.eqb (zsort vin) (map fst inp) &&
   oracle_total_on inp vres &&
-  match estimate_voices (fun _ => vres) mono notes with
+  match estimate_voices (rep_obs vin) (fun _ => vres) mono notes with
   | Some vs => list_eqb Z.eqb vs out
   | None => false
   end.
 
-(* fall-back when the VoSA call cannot be observed: the output, restricted to the
-   representatives and fed back as the oracle's answer, must reproduce itself *)
+(* fall-back when the VoSA call cannot be observed: the output, restricted to one note per chord
+   and fed back as the oracle's answer, must reproduce itself *)
 Definition voices_check_self (c : bool * list vnote * list Z) : bool :=
   let '(mono, notes, out) := c in
   let ins := indexed_from 0 notes in
   let inp := vosa_input ins (equivs_of mono ins) in
   let vres := map (fun x => (fst x, nth (Z.to_nat (fst x)) out 0)) inp in
   Nat.eqb (List.length out) (List.length notes) &&
-  match estimate_voices (fun _ => vres) mono notes with
+  match estimate_voices rep_of (fun _ => vres) mono notes with
   | Some vs => list_eqb Z.eqb vs out
   | None => false
   end.
